@@ -66,8 +66,17 @@ func DefaultParameters() Parameters {
 }
 
 func (p *Parameters) Validate() error {
-	if p.trustingPeriod == 0 {
+	if p.trustingPeriod <= 0 {
 		return fmt.Errorf("invalid trustingPeriod duration: %v", p.trustingPeriod)
+	}
+	if p.PruningWindow < 0 {
+		return fmt.Errorf("invalid PruningWindow duration: %v", p.PruningWindow)
+	}
+	if p.blockTime < 0 {
+		return fmt.Errorf("invalid blockTime duration: %v", p.blockTime)
+	}
+	if p.recencyThreshold < 0 {
+		return fmt.Errorf("invalid recencyThreshold duration: %v", p.recencyThreshold)
 	}
 	if p.SyncFromHash == "" && p.PruningWindow == 0 && p.SyncFromHeight == 0 {
 		return fmt.Errorf(
